@@ -456,6 +456,7 @@ type Contract struct {
 	Interface  bool     // contract of an interface method
 	Pure       bool
 	Opaque     []string // callee keys to treat as opaque even if they have contracts
+	AssumePure []string // call display names assumed to leave the visible heap unchanged
 	Ghost      []string
 	File       string
 	Line       int
@@ -745,6 +746,10 @@ func (cs *ContractSet) LoadContractFile(path, pkgName string, trusted bool) erro
 				}
 			case "opaque":
 				cur.Opaque = append(cur.Opaque, strings.Fields(rest)...)
+			case "assume-pure":
+				// calls with these display names (function values, uncontracted callees) are assumed
+				// not to modify any heap location visible to this function (listed assumption)
+				cur.AssumePure = append(cur.AssumePure, strings.Fields(rest)...)
 			case "note":
 				cur.Notes = append(cur.Notes, rest)
 			default:
